@@ -1585,6 +1585,7 @@ DoTraversalAux(TraversalContext & data, DataNode & node)
                            scratchStr.Clear();
                         }
                      }
+                     else scratchStr += c;  // keep the escape-char in place, since DoDirectChildLookup() will call RemoveEscapeChars() on the string we pass to it
                      prevCharWasEscape = curCharIsEscape;
                      k++;
                   }
